@@ -31,15 +31,23 @@ def allocPrefixes : List String :=
    "strings.(*Builder)", "bytes.(*Buffer)", "strings.ToLower", "strings.ToUpper", "bytes.ToLower", "bytes.ToUpper",
    "strings.Map", "bytes.Map", "fmt.", "sync.", "reflect."]
 
-def chars (s : String) : List Char := s.toList
+def codes (s : String) : List Nat := s.toList.map Char.toNat
 
-def isAllocator (n : List Char) : Bool := allocPrefixes.any fun p => (chars p).isPrefixOf n
+/-- the prefix lists as character codes, computed once -/
+def allocCodes : List (List Nat) := allocPrefixes.map codes
+def isAllocator (n : List Nat) : Bool := allocCodes.any fun p => p.isPrefixOf n
 
 /-- where the extractor may stop: panics (C06's business), stack growth, and the conditional `intstring` -/
 def stopPrefixes : List String :=
   ["runtime.panic", "runtime.goPanic", "runtime.gopanic", "runtime.throw", "runtime.fatal", "runtime.morestack",
    "runtime.sigpanic", "runtime.intstring"]
-def isStop (n : List Char) : Bool := stopPrefixes.any fun p => (chars p).isPrefixOf n
+def stopCodes : List (List Nat) := stopPrefixes.map codes
+def isStop (n : List Nat) : Bool := stopCodes.any fun p => p.isPrefixOf n
+
+/-- the generated code lists cover the same node ids, in the same order, as `nodes` (the symbol strings of
+    `nodes` are for the reader; the checks below run on the character codes the same translator emitted) -/
+def codesOK : Bool := nodes.map (·.1) == nodeCodes.map (·.1)
+def codeOf (i : Nat) : List Nat := (nodeCodes.lookup i).getD []
 
 def ids : List Nat := nodes.map (·.1)
 
@@ -51,7 +59,7 @@ def closedOK : Bool :=
     other node has a body that was scanned; no indirect call anywhere -/
 def nodesOK : Bool :=
   nodes.all fun n =>
-    let name := chars n.2.1
+    let name := codeOf n.1
     let stopped := n.2.2.1
     let defined := n.2.2.2.1
     let indirect := n.2.2.2.2
@@ -61,7 +69,7 @@ def nodesOK : Bool :=
     every `runtime.intstring` call site passes a stack buffer -/
 def intstringOK : Bool := intstringSites.all fun s => s.2 == "stackbuf"
 
-theorem no_allocator_reachable : closedOK = true ∧ nodesOK = true ∧ intstringOK = true := by decide +kernel
+theorem no_allocator_reachable : closedOK = true ∧ codesOK = true ∧ nodesOK = true ∧ intstringOK = true := by decide +kernel
 
 /-- the compiler's escape analysis reports nothing escaping or moved to the heap in the product
     packages, and the analysis itself ran -/
